@@ -40,7 +40,7 @@ def cases(tier, seed):
         yield {"kind": "roundtrip", "ni": int(rng.integers(1, 21)), "nt": int(rng.integers(1, 61)),
                "family": ["unit", "tiny", "huge", "negative", "ints", "mixedsign"][int(rng.integers(0, 6))],
                "labels": int(rng.integers(0, len(LABELSETS))), "comment": bool(rng.random() < 0.3), "equal": bool(rng.random() < 0.4),
-               "nan": [None, None, "NaN", "?"][int(rng.integers(0, 4))], "dseed": int(rng.integers(0, 2 ** 31)), "i": i}
+               "nan": [None, None, "NaN", "?"][int(rng.integers(0, 4))], "rowidx": ["default", "default", "permuted", "offset", "strings"][int(rng.integers(0, 5))], "dseed": int(rng.integers(0, 2 ** 31)), "i": i}
 
 
 def run_case(case, ctx):
@@ -87,6 +87,14 @@ def _roundtrip(case, ctx):
         m = rng.random((ni, nt)) < 0.15
         vals = np.where(m, np.nan, vals)
     X = pd.DataFrame({"dim_0": [pd.Series(vals[i].copy()) for i in range(ni)]})
+    # the panel's row labels are arbitrary (e.g. after shuffling or slicing); instances and labels are matched by position
+    ri = case.get("rowidx", "default")
+    if ri == "permuted":
+        X.index = rng.permutation(ni)
+    elif ri == "offset":
+        X.index = np.arange(5, 5 + ni)
+    elif ri == "strings":
+        X.index = ["case%d" % (ni - i) for i in range(ni)]
     labelset = LABELSETS[case["labels"]]
     yv = None
     if labelset:
